@@ -278,11 +278,11 @@ impl Default for WorldCfg {
         WorldCfg {
             n_users: 4,
             balances: vec![
-                coin(10u128.pow(32), "uom"),
-                coin(10u128.pow(32), "uusd"),
-                coin(10u128.pow(32), "uusdc"),
+                coin(10u128.pow(36), "uom"),
+                coin(10u128.pow(36), "uusd"),
+                coin(10u128.pow(36), "uusdc"),
                 coin(10u128.pow(37), "ausdy"),
-                coin(10u128.pow(32), "uweth"),
+                coin(10u128.pow(36), "uweth"),
             ],
             tf_fee: vec![coin(8888, "uom")],
             farm_fee: coin(1000, "uom"),
@@ -477,6 +477,13 @@ impl World {
         )
         .unwrap();
         World { app, plan, users, fee_collector, pool_manager, farm_manager, epoch_manager, tf_fee: cfg.tf_fee.clone() }
+    }
+
+    /// address of the pool manager (deterministic: fourth contract instantiated)
+    pub fn pool_manager_addr() -> String {
+        use std::sync::OnceLock;
+        static A: OnceLock<String> = OnceLock::new();
+        A.get_or_init(|| World::new(&WorldCfg { n_users: 1, ..Default::default() }).pool_manager.to_string()).clone()
     }
 
     pub fn snapshot(&self) -> Snapshot {
